@@ -74,7 +74,7 @@ func (e *Engine) verifyContract(c *Contract) (res *UnitResult) {
 	bindParam := func(o *types.Var, cname string) {
 		v := x.havocVal("in_"+o.Name(), o.Type())
 		x.emitTypeFact(st, v)
-		st.vars[o] = v
+		x.declVar(st, o, v)
 		if cname != "" && cname != "_" {
 			fr.specNames[cname] = v
 		}
@@ -125,7 +125,7 @@ func (e *Engine) verifyContract(c *Contract) (res *UnitResult) {
 		for _, fld := range fd.Type.Results.List {
 			for _, nm := range fld.Names {
 				if o, ok := pkg.TypesInfo.Defs[nm].(*types.Var); ok {
-					st.vars[o] = x.zeroVal(o.Type())
+					x.declVar(st, o, x.zeroVal(o.Type()))
 					fr.named = append(fr.named, o)
 				}
 			}
@@ -172,7 +172,10 @@ func (e *Engine) verifyContract(c *Contract) (res *UnitResult) {
 	if f.next != nil {
 		var vals []Val
 		for _, nv := range fr.named {
-			vals = append(vals, f.next.vars[nv])
+			{
+				gv, _ := x.getVar(f.next, nv)
+				vals = append(vals, gv)
+			}
 		}
 		rets = append(rets, retState{f.next, vals})
 	}
